@@ -4,6 +4,8 @@ The degenerate half of the configuration space of C01 (zero / duplicated / colli
 / too few frames, extreme scales, hard one-hot starts) x trainer options with <= d
 deviations; every intermediate model seen by the iteration hook is checked with
 predicates (no expected values); single-distribution trainers on the same data."""
+import itertools
+
 import numpy as np
 
 from mc.core import Sub, ok, trivial, viol, raised_ok
@@ -175,7 +177,15 @@ def run_single(key):
     fam, D, N, lead, kind, salk, seed = (key[k] for k in ('family', 'D', 'N', 'lead', 'data', 'sal', 'seed'))
     lead = tuple(lead)
     cplx = fam in ('cgauss', 'watson', 'cacg') or fam.startswith('bingham')
+    offset = None
+    if kind.startswith('offset'):
+        # regular real data far away from the origin (common offset 1e4 / 1e6 times the spread)
+        offset = 10.0 ** int(kind[len('offset'):])
+        kind = 'generic'
     y = S.make_observation(seed, lead, N, D, kind, cplx, ('c09single', fam))
+    if offset is not None:
+        r = A.rng(seed, 'c09offset', fam, D)
+        y = y + offset * (1.0 + r.uniform(0, 1, D))
     N = y.shape[-2]
     sal = S.make_saliency(lead, N, salk)
     if sal is not None and (sal.sum(-1) <= 0).any():
@@ -189,6 +199,9 @@ def run_single(key):
             if not (np.isfinite(cov).all() and np.isfinite(m.mean).all()):
                 return viol('Gaussian parameters non-finite')
             if ct == 'full':
+                if np.abs(cov - np.swapaxes(cov, -1, -2)).max() > 1e-9 * (1 + np.abs(cov).max()):
+                    return viol(f'returned Gaussian covariance not symmetric '
+                                f'({np.abs(cov - np.swapaxes(cov, -1, -2)).max():.2e} of {np.abs(cov).max():.2e})')
                 for idx in np.ndindex(*cov.shape[:-2]):
                     if not _cholesky_ok(cov[idx], kind != 'generic' or salk == 'one_zero'):
                         return viol('returned Gaussian covariance not positive definite')
@@ -258,6 +271,70 @@ def run_single(key):
     return ok(outcome=f'{fam}:{kind}:{salk}')
 
 
+BOUND_FAMILIES = ('watson', 'cwmm', 'vmf', 'vmfmm', 'bingham', 'cbmm')
+BOUNDS = {'watson': (500.0, 50.0, 5.0), 'cwmm': (500.0, 50.0, 5.0),
+          'vmf': ((1e-10, 500.0), (2.0, 5.0), (0.5, 50.0)), 'vmfmm': ((1e-10, 500.0), (2.0, 5.0), (0.5, 50.0)),
+          'bingham': (500.0, 50.0, 5.0), 'cbmm': (500.0, 50.0, 5.0)}
+
+
+def run_bounds(key):
+    """trainers with different concentration bounds used one after the other in one process (every order):
+    each fitted concentration lies inside the bounds of the trainer that produced it - on concentrated data,
+    where the upper bound binds, and on nearly uniform data, where the lower one does."""
+    d = impl.dist()
+    fam, D, seq, seed = key['family'], key['D'], key['bounds'], key['seed']
+    cplx = fam not in ('vmf', 'vmfmm')
+    N = 4 * D + 4
+    r = A.rng(seed, 'c09bounds', fam, D)
+    proto = A.unit_vectors(seed, 2, D, 'c09bounds', fam, complex_=cplx, max_cos=0.3)
+    noise = A.cnormal(r, (N, D)) if cplx else r.standard_normal((N, D))
+    lab = np.arange(N) % 2
+    tight = proto[lab] + 0.01 * noise           # two tight clusters: ML concentration of the order 1e4
+    loose = noise / np.linalg.norm(noise, axis=-1, keepdims=True)
+    init = A.partition_affiliation(lab, 2, blur=0.1)
+    n = 0
+    for b in seq:
+        for name, y in (('concentrated', tight), ('uniform', loose)):
+            try:
+                if fam == 'watson':
+                    k = d.ComplexWatsonTrainer(max_concentration=b).fit(y[lab == 0]).concentration
+                    lo, hi = 0.0, b
+                elif fam == 'cwmm':
+                    k = d.CWMMTrainer(max_concentration=b).fit(y, initialization=init, iterations=2) \
+                        .complex_watson.concentration
+                    lo, hi = 0.0, b
+                elif fam == 'vmf':
+                    k = d.VonMisesFisherTrainer().fit(y[lab == 0], min_concentration=b[0],
+                                                      max_concentration=b[1]).concentration
+                    lo, hi = b
+                elif fam == 'vmfmm':
+                    k = d.VMFMMTrainer().fit(y, initialization=init, iterations=2, min_concentration=b[0],
+                                             max_concentration=b[1]).vmf.concentration
+                    lo, hi = b
+                elif fam == 'bingham':
+                    k = -np.asarray(d.ComplexBinghamTrainer(max_concentration=b).fit(y[lab == 0])
+                                    .covariance_eigenvalues)
+                    lo, hi = -1e-7, b
+                else:
+                    k = -np.asarray(d.CBMMTrainer(max_concentration=b).fit(y, initialization=init, iterations=2)
+                                    .complex_bingham.covariance_eigenvalues)
+                    lo, hi = -1e-7, b
+            except Exception as e:  # noqa
+                if fam in ('bingham', 'cbmm'):
+                    continue        # rank-deficient scatter guard of the Bingham solver (judged elsewhere)
+                return viol(f'{fam} with bounds {b} raised on {name} data: {e!r}')
+            k = np.asarray(k, dtype=float)
+            if not np.isfinite(k).all():
+                return viol(f'{fam} with bounds {b} after {list(seq)}: non-finite concentration on {name} data')
+            if (k < lo * (1 - 1e-9) - 1e-12).any() or (k > hi * (1 + 1e-6) + 1e-6).any():
+                return viol(f'{fam} trainer with bounds {b} (used in the sequence {list(seq)}) returned a '
+                            f'concentration of {k.min()!r}..{k.max()!r} on {name} data')
+            n += 1
+    if n == 0:
+        return trivial('every fit raised')
+    return ok(outcome=f'{fam}:{seq}', evals=n)
+
+
 def subchecks(tier, seed):
     thorough = tier == 'thorough'
     d = 3 if thorough else 2
@@ -296,10 +373,24 @@ def subchecks(tier, seed):
             for D in ((2, 3) if fam.startswith('bingham') else (2, 3, 5)):
                 for N in (D + 2, 12):
                     for lead in ((), (2,)):
-                        for kind in ('generic',) + tuple(kinds):
+                        for kind in ('generic',) + tuple(kinds) + (('offset4', 'offset6') if fam.startswith('gauss')
+                                                                   else ()):
                             for salk in ('none', 'graded', 'one_zero'):
                                 for its in ((1, 10) if fam == 'cacg' else (1,)):
                                     yield (fam, D, N, lead, kind, salk, its, seed)
     subs.append(Sub('single_trainers', ('family', 'D', 'N', 'lead', 'data', 'sal', 'its', 'seed'),
                     single_cases, run_single))
+
+    def bound_cases():
+        for fam in BOUND_FAMILIES:
+            for D in (2, 3):
+                for seq in itertools.permutations(BOUNDS[fam], 2):
+                    yield (fam, D, seq, seed)
+                for seq in itertools.permutations(BOUNDS[fam], 3):
+                    yield (fam, D, seq, seed)
+    subs.append(Sub('concentration_bounds_in_sequence', ('family', 'D', 'bounds', 'seed'), bound_cases, run_bounds,
+                    bound=dict(bounds={k: [list(b) if isinstance(b, tuple) else b for b in v]
+                                       for k, v in BOUNDS.items()},
+                               note='every ordered pair and triple of bounds, trainers used one after the other '
+                                    'in one process')))
     return subs
